@@ -498,6 +498,9 @@ pub(crate) struct DrawState {
     pub(crate) move_cursor: bool,
     /// Controls how the multi progress is aligned if some of its progress bars get removed, default is `Top`
     pub(crate) alignment: MultiProgressAlignment,
+    /// True if the previous draw erased lines without printing anything. The cursor is then at
+    /// the start of the row below the remaining lines instead of at the end of the last of them.
+    cursor_below: bool,
 }
 
 impl DrawState {
@@ -514,14 +517,21 @@ impl DrawState {
             return Ok(());
         }
 
+        // Normally the cursor is at the end of the last of the lines to erase. After a draw that
+        // printed nothing it is one row further down.
+        let up = match self.cursor_below {
+            true => bar_count.as_usize(),
+            false => bar_count.as_usize().saturating_sub(1),
+        };
+
         if !self.lines.is_empty() && self.move_cursor {
             // Move up to first line (assuming the last line doesn't contain a '\n') and then move to then front of the line
-            term.move_cursor_up(bar_count.as_usize().saturating_sub(1))?;
+            term.move_cursor_up(up)?;
             term.write_str("\r")?;
         } else {
             // Fork of console::clear_last_lines that assumes that the last line doesn't contain a '\n'
             let n = bar_count.as_usize();
-            term.move_cursor_up(n.saturating_sub(1))?;
+            term.move_cursor_up(up)?;
             for i in 0..n {
                 term.clear_line()?;
                 if i + 1 != n {
@@ -591,6 +601,11 @@ impl DrawState {
         }
 
         term.flush()?;
+        if !self.lines.is_empty() {
+            self.cursor_below = false;
+        } else if *bar_count > VisualLines::default() {
+            self.cursor_below = true;
+        }
         *bar_count = real_height + shift;
 
         Ok(())
